@@ -1,5 +1,7 @@
 import PersimVerif.Lemmas.SrcLibNp
 import PersimVerif.Lemmas.MGHGreedy
+import PersimVerif.Lemmas.MGHLb
+import Mathlib.Tactic.Ring
 /-
   Bridging lemmas between the mGH source translator's library (`Lemmas/SrcLibNp.lean`) and `Model/MGH.lean`, used by the
   generated obligations of `Generated/SrcMGH.lean` (C05).  Hand-written; about model and library definitions only (no
@@ -260,5 +262,177 @@ theorem represent_scatter (DX : List (List Nat)) (maxD : Nat) (h : ∀ row ∈ D
       simp only [cell, List.getD, List.getElem?_eq_getElem hrM, List.getElem?_eq_getElem hr, Option.getD_some,
         List.getElem?_eq_getElem (show c < M[r].length by omega)] at this
       simp [List.getElem_dropLast, this]
+
+/-! ### `find_largest_size_bounded_curvature` -/
+
+/-- a square matrix (every row as long as the matrix has rows) -/
+def Sq (K : List (List Nat)) : Prop := ∀ row ∈ K, row.length = K.length
+
+theorem ncols_sq {K : List (List Nat)} (h : Sq K) : ncols K = K.length := by
+  cases K with
+  | nil => rfl
+  | cons r rs => exact h r (List.mem_cons_self ..)
+
+theorem drop_eq_map_range' (r : List Nat) (m : Nat) :
+    r.drop m = (List.range' m (r.length - m)).map (fun j => r.getD j 0) := by
+  apply List.ext_getElem
+  · simp
+  · intro i h1 h2
+    have hi : m + i < r.length := by simp at h1; omega
+    simp [List.getD, hi]
+
+theorem anyUpperLess_eq_range (rows : List (List Nat)) (n k d : Nat) (h : ∀ row ∈ rows, row.length = n) :
+    anyUpperLess k rows d = (List.range rows.length).any fun i =>
+      (List.range' (k + i + 1) (n - (k + i + 1))).any fun j => decide ((rows.getD i []).getD j 0 < d) := by
+  induction rows generalizing k with
+  | nil => rfl
+  | cons r rs ih =>
+    have hr : r.length = n := h r (List.mem_cons_self ..)
+    rw [anyUpperLess, ih (k + 1) (fun row hrow => h row (List.mem_cons_of_mem _ hrow)), List.length_cons, List.range_succ_eq_map,
+      List.any_cons, List.any_map, drop_eq_map_range', List.any_map, hr]
+    congr 1
+    apply List.any_congr rfl
+    intro i
+    have : k + 1 + i + 1 = k + (i + 1) + 1 := by omega
+    simp [this]
+
+theorem anyUpperLt_eq {K : List (List Nat)} (h : Sq K) (d : Nat) : anyUpperLt K d = anyUpperLess 0 K d := by
+  rw [anyUpperLess_eq_range K K.length 0 d h]
+  unfold anyUpperLt
+  rw [ncols_sq h]
+  apply List.any_congr rfl
+  intro i
+  simp
+
+
+/-- the row-by-row accumulation of the model's `colStats`, column by column -/
+theorem colStats_fold (d n : Nat) (rows : List (List Nat)) (h : ∀ row ∈ rows, row.length = n) :
+    ∀ acc : List (Nat × Nat), acc.length = n →
+    rows.foldl (fun acc row => List.zipWith (fun (cs : Nat × Nat) x =>
+        if x < d then (cs.1 + 1, cs.2) else (cs.1, cs.2 + x)) acc row) acc =
+      (List.range n).map fun j => ((acc.getD j (0, 0)).1 + (column rows j).countP (fun x => decide (x < d)),
+        (acc.getD j (0, 0)).2 + ((column rows j).filter (fun x => decide (d ≤ x))).sum) := by
+  induction rows with
+  | nil =>
+    intro acc hacc
+    apply List.ext_getElem
+    · simp [hacc]
+    · intro j h1 h2
+      have hj : j < acc.length := by simpa using h1
+      simp [column, List.getD, hj]
+  | cons row rest ih =>
+    intro acc hacc
+    have hrow : row.length = n := h row (List.mem_cons_self ..)
+    rw [List.foldl_cons, ih (fun r hr => h r (List.mem_cons_of_mem _ hr)) _ (by simp [hacc, hrow])]
+    apply List.map_congr_left
+    intro j hj
+    have hj' : j < n := by simpa using hj
+    have h1 : j < acc.length := by omega
+    have h2 : j < row.length := by omega
+    simp only [column, List.map_cons, List.getD, List.getElem?_zipWith, List.getElem?_eq_getElem h1,
+      List.getElem?_eq_getElem h2, Option.getD_some, List.countP_cons, List.filter_cons]
+    by_cases hx : row[j] < d
+    · have : ¬ d ≤ row[j] := by omega
+      simp [hx, this]; omega
+    · have : d ≤ row[j] := by omega
+      simp [hx, this]; omega
+
+theorem colStats_eq {K : List (List Nat)} (h : Sq K) (d : Nat) :
+    colStats K d = List.zipWith Prod.mk (colCountLt K d) (colSumGe K d) := by
+  unfold colStats colCountLt colSumGe
+  rw [colStats_fold d K.length K h _ (by simp), ncols_sq h]
+  apply List.ext_getElem
+  · simp
+  · intro j h1 h2
+    have hj : j < K.length := by simpa using h1
+    simp [List.getD, hj]
+
+/-- the sort keys as the source computes them (elementwise over the two column sums, the product `len(K) * int(diam_X)` exact) -/
+theorem sortKeys_eq {K : List (List Nat)} (h : Sq K) (diam d : Nat) :
+    List.zipWith (fun (x : Nat) (y : Nat) => -(x : Int) * ((K.length * diam : Nat) : Int) + (y : Int)) (colCountLt K d) (colSumGe K d) =
+      sortKeys exactMul K diam d := by
+  unfold sortKeys
+  rw [colStats_eq h, List.map_zipWith]
+  have : (fun (x y : Nat) => -(x : Int) * ((K.length * diam : Nat) : Int) + (y : Int)) =
+      fun x y => (((x, y) : Nat × Nat).2 : Int) - (((x, y) : Nat × Nat).1 : Int) * exactMul K.length diam := by
+    funext a b
+    simp only [exactMul]
+    ring
+  rw [this]
+
+theorem argminFrom_eq (xs : List Int) (k : Nat) (best : Int) (bi : Nat) : argminFrom xs k best bi = argminAux xs k best bi := by
+  induction xs generalizing k best bi with
+  | nil => rfl
+  | cons x xs ih => simp only [argminFrom, argminAux, ih]
+
+theorem npArgmin_eq {l : List Int} (h : l ≠ []) : npArgmin l = .ok (argmin l) := by
+  cases l with
+  | nil => exact absurd rfl h
+  | cons x xs => simp only [npArgmin, argmin, argminFrom_eq]
+
+
+theorem two_le_of_anyUpperLess {K : List (List Nat)} {d : Nat} (h : Sq K) (hc : anyUpperLess 0 K d = true) : 2 ≤ K.length := by
+  match K, h, hc with
+  | [], _, hc => simp [anyUpperLess] at hc
+  | [r], h, hc =>
+    have : r.length = 1 := h r (List.mem_cons_self ..)
+    simp [anyUpperLess, List.drop_of_length_le (Nat.le_of_eq this)] at hc
+  | _ :: _ :: _, _, _ => simp
+
+theorem sq_delRowCol {K : List (List Nat)} (h : Sq K) {r : Nat} (hr : r < K.length) : Sq (delRowCol K r) := by
+  intro row hrow
+  unfold delRowCol at hrow ⊢
+  simp only [List.mem_map] at hrow
+  obtain ⟨row', hmem, rfl⟩ := hrow
+  have h1 : row'.length = K.length := h row' (List.mem_of_mem_eraseIdx hmem)
+  simp [List.length_eraseIdx, h1, hr]
+
+theorem length_delRowCol {K : List (List Nat)} {r : Nat} (hr : r < K.length) : (delRowCol K r).length + 1 = K.length := by
+  simp [delRowCol, List.length_eraseIdx, hr]; omega
+
+/-- one round of the `while` loop of `find_largest_size_bounded_curvature` on a square `K` whose loop test holds: `np.argmin`
+    of the sort keys does not raise, the two `np.delete` are in range, and the new `K` is the model's `delRowCol`, square again,
+    one row shorter -/
+theorem curv_step {K : List (List Nat)} (hK : Sq K) (diam d : Nat) (hc : anyUpperLess 0 K d = true) :
+    npArgmin (List.zipWith (fun (x : Nat) (y : Nat) => -(x : Int) * ((K.length * diam : Nat) : Int) + (y : Int)) (colCountLt K d) (colSumGe K d))
+        = .ok (argmin (sortKeys exactMul K diam d)) ∧
+      deleteRow K (argmin (sortKeys exactMul K diam d)) = .ok (K.eraseIdx (argmin (sortKeys exactMul K diam d))) ∧
+      deleteCol (K.eraseIdx (argmin (sortKeys exactMul K diam d))) (argmin (sortKeys exactMul K diam d))
+        = .ok (delRowCol K (argmin (sortKeys exactMul K diam d))) ∧
+      Sq (delRowCol K (argmin (sortKeys exactMul K diam d))) ∧
+      (delRowCol K (argmin (sortKeys exactMul K diam d))).length + 1 = K.length := by
+  have h2 := two_le_of_anyUpperLess hK hc
+  have hne : K ≠ [] := by intro e; subst e; simp at h2
+  have hlt := argmin_sortKeys_lt exactMul diam d hne
+  have hkeys : sortKeys exactMul K diam d ≠ [] := by
+    rw [← sortKeys_eq hK]
+    intro e
+    have := congrArg List.length e
+    simp only [colCountLt, colSumGe, ncols_sq hK, List.length_zipWith, List.length_map, List.length_range, List.length_nil,
+      Nat.min_self] at this
+    omega
+  refine ⟨?_, ?_, ?_, sq_delRowCol hK hlt, length_delRowCol hlt⟩
+  · rw [sortKeys_eq hK]; exact npArgmin_eq hkeys
+  · simp [deleteRow, hlt]
+  · generalize argmin (sortKeys exactMul K diam d) = r at hlt ⊢
+    have hsq : ncols (K.eraseIdx r) = K.length := by
+      match K, hK, h2 with
+      | a :: b :: rest, hK, _ =>
+        cases r with
+        | zero => simpa [ncols] using hK b (by simp)
+        | succ r => simpa [ncols] using hK a (by simp)
+    simp [deleteCol, hsq, hlt, delRowCol]
+
+
+/-- the curvature that the model's loop returns does not depend on the (ghost) list of original indices it carries -/
+theorem curvLoop_fst_idx (km : Nat → Nat → Int) (diam d fuel : Nat) (K : List (List Nat)) (idx idx' : List Nat) :
+    (curvLoop km diam d fuel K idx).1 = (curvLoop km diam d fuel K idx').1 := by
+  induction fuel generalizing K idx idx' with
+  | zero => rfl
+  | succ fuel ih =>
+    simp only [curvLoop]
+    split
+    · exact ih _ _ _
+    · rfl
 
 end PersimVerif.SrcBridge.MGH
